@@ -2,6 +2,7 @@ import Driver.Util
 import NixModel.Pure.Tree
 import NixModel.Pure.TreeShape
 import NixModel.Pure.TreeIds
+import NixModel.Pure.TreeIdsRef
 import NixModel.Generated.FindShape
 import NixModel.Generated.IdLookup
 open Lean Nix Nix.Tree Nix.Tree.Shape Nix.Tree.Ids Nix.Generated
@@ -191,8 +192,8 @@ def handle (texts : Nat → String) (f : File) (j : Json) : File × Json :=
       match f.lookup k with
       | some (.sec _) =>
         if what == "objects" then
-          (f, exceptKeys (refObjectsG FindShape.sectionReferring FindShape.sectionReferringObjects f k))
-        else (f, exceptKeys (refList FindShape.sectionReferring f ("referring_" ++ what) k))
+          (f, exceptKeys (refObjectsT texts FindShape.sectionReferring FindShape.sectionReferringObjects f k))
+        else (f, exceptKeys (refListT texts FindShape.sectionReferring f ("referring_" ++ what) k))
       | some (.src b _) =>
         if what == "objects" then
           (f, exceptKeys (srcRefObjectsG FindShape.sourceReferring FindShape.sourceReferringObjects b k))
